@@ -211,10 +211,16 @@ type World struct {
 	// Inline: run the call into the mint on the calling goroutine (crash / error injection by proc)
 	Inline bool
 	// Fault: a storage/Lightning error is being injected into the operation now running
-	Fault     bool
-	LastEv    string
-	LastA     map[string]any
-	LastSince int
+	Fault bool
+	// ViaHTTP: operations go through the HTTP handler with hand-built JSON
+	ViaHTTP       bool
+	lastHTTP      *HTTPFacts
+	lastOKReq     *HTTPFacts
+	lastFailedReq *HTTPFacts
+	okReqs        map[string]bool
+	LastEv        string
+	LastA         map[string]any
+	LastSince     int
 }
 
 // announce records the facts of an operation before the mint is called, so that a crash
@@ -563,6 +569,20 @@ func (w *World) emit(ev string, a, r map[string]any) *Event {
 		r = map[string]any{"ok": true}
 	}
 	a["fault"] = w.Fault
+	h := map[string]any{"used": false, "status": 0, "code": 0, "shape": "ok", "errbody": true, "dbcalls": 0, "generic": false, "path": "", "cachehit": false}
+	if f := w.lastHTTP; f != nil {
+		h = map[string]any{"used": true, "status": f.Status, "code": f.Code, "shape": f.Shape, "errbody": f.ErrBody || f.Status == 200, "dbcalls": f.DBCalls,
+			"generic": f.Detail == "mint is currently unable to process request" || f.Detail == "unable to send payment", "path": f.Path, "cachehit": f.CacheHit}
+		if f.Path == "/v1/swap" || f.Path == "/v1/mint/bolt11" {
+			if f.Status == 200 {
+				w.lastOKReq = f
+			} else {
+				w.lastFailedReq = f
+			}
+		}
+		w.lastHTTP = nil
+	}
+	r["http"] = h
 	var post map[string]any
 	if w.Conc || w.NoPost {
 		post = map[string]any{}
